@@ -16,6 +16,7 @@
 import abc
 import collections
 import os
+import threading
 from unittest import mock
 
 from openpyxl import load_workbook, Workbook
@@ -26,6 +27,10 @@ from pycel.excelutil import AddressCell, AddressRange, flatten, is_address
 
 ARRAY_FORMULA_NAME = '=CSE_INDEX'
 ARRAY_FORMULA_FORMAT = '{}(%s,%s,%s,%s,%s)'.format(ARRAY_FORMULA_NAME)
+
+# openpyxl's from_excel is patched process wide while a workbook is read,
+# threads have to take turns
+FROM_EXCEL_LOCK = threading.RLock()
 
 
 class ExcelWrapper:
@@ -245,8 +250,8 @@ class ExcelOpxWrapper(ExcelWrapper):
 
     def load(self):
         # work around type coercion to datetime that causes some issues
-        with mock.patch('openpyxl.worksheet._reader.from_excel',
-                        self.from_excel):
+        with FROM_EXCEL_LOCK, mock.patch(
+                'openpyxl.worksheet._reader.from_excel', self.from_excel):
             self.workbook = load_workbook(self.filename)
             self.workbook_dataonly = load_workbook(
                 self.filename, data_only=True)
@@ -342,8 +347,8 @@ class ExcelOpxWrapper(ExcelWrapper):
             sheet = self.workbook.active
             sheet_dataonly = self.workbook_dataonly.active
 
-        with mock.patch('openpyxl.worksheet._reader.from_excel',
-                        self.from_excel):
+        with FROM_EXCEL_LOCK, mock.patch(
+                'openpyxl.worksheet._reader.from_excel', self.from_excel):
             # work around type coercion to datetime that causes some issues
 
             if address.is_unbounded_range:
